@@ -77,10 +77,10 @@ Enter ==
   /\ pc = "enter"
   /\ IF Bop \in {"add", "sub"}
      THEN IF as <= bs
-          THEN sumIdx' = Min(rs, as) /\ copyIdx' = Min(rs, bs) /\ aFirst' = TRUE
-          ELSE sumIdx' = Min(rs, bs) /\ copyIdx' = Min(rs, as) /\ aFirst' = FALSE
+          THEN sumIdx' = Min2(rs, as) /\ copyIdx' = Min2(rs, bs) /\ aFirst' = TRUE
+          ELSE sumIdx' = Min2(rs, bs) /\ copyIdx' = Min2(rs, as) /\ aFirst' = FALSE
      ELSE IF Bop = "zero" THEN sumIdx' = 0 /\ copyIdx' = 0 /\ aFirst' = TRUE
-     ELSE sumIdx' = Min(rs, as) /\ copyIdx' = Min(rs, as) /\ aFirst' = TRUE
+     ELSE sumIdx' = Min2(rs, as) /\ copyIdx' = Min2(rs, as) /\ aFirst' = TRUE
   /\ i' = 0 /\ pc' = "loop1"
   /\ UNCHANGED <<op, rs, as, bs, rsl, asl, bsl, alias, rb, ab, bb, mem, written, oob>>
 
